@@ -108,6 +108,13 @@ func Fail(id string) error {
 	return nil
 }
 
+// FailCtx is what a provider that honours its context returns once the context is done: its own error
+// (logged as a failure of that provider), as a dialer would wrap ctx.Err().
+func FailCtx(id string) error {
+	record("fail", id)
+	return &ProvErr{ID: id}
+}
+
 type ProvErr struct{ ID string }
 
 func (e *ProvErr) Error() string { return "provider-failed:" + e.ID }
@@ -253,7 +260,8 @@ func main() {
 			res.Returned = false
 		}
 		// goroutines of the injector still alive after a grace period, without any further action by the caller
-		deadline := time.Now().Add(300 * time.Millisecond)
+		returnedAt := time.Now()
+		deadline := returnedAt.Add(300 * time.Millisecond)
 		for {
 			buf := make([]byte, 1<<20)
 			n := runtime.Stack(buf, true)
@@ -267,7 +275,9 @@ func main() {
 				}
 			}
 			res.Leaked, res.LeakedAt = leaked, at
-			if leaked == 0 || time.Now().After(deadline) || !res.Returned {
+			// (a goroutine that has not been scheduled yet shows no frame of the injector: do not accept "none left"
+			// before the injector's goroutines had time to start)
+			if (leaked == 0 && (runtime.NumGoroutine() <= before || time.Since(returnedAt) > 40*time.Millisecond)) || time.Now().After(deadline) || !res.Returned {
 				break
 			}
 			time.Sleep(10 * time.Millisecond)
@@ -355,7 +365,7 @@ def render_decl(k, line, rng=None, name=None):
                 # a fallible provider that is handed the context honours it, as a dialer would
                 for j, t in enumerate(p['req']):
                     if t == 0:
-                        body.append('\tif err := a%d.Err(); err != nil {\n\t\trt.Exit("%s")\n\t\treturn %s\n\t}' % (j, pid, zeros))
+                        body.append('\tif a%d.Err() != nil {\n\t\terr := rt.FailCtx("%s")\n\t\treturn %s\n\t}' % (j, pid, zeros))
                         break
             body.append('\targs := %s' % argterms)
             vals = [value_lit(g[0], '"P%d.%d(" + args + ")"' % (i, gi)) for gi, g in enumerate(p['groups'])]
